@@ -91,26 +91,17 @@ func runGF(sc scen) result {
 	if rng.Intn(8) == 0 {
 		qcap = 100
 	}
-	commitmode := "-"
+	commitmode := commitModeOf(sc)
 	ci := time.Duration(0)
-	if isG {
-		commitmode = "s"
-		if rng.Intn(2) == 0 {
-			commitmode = "a"
-		}
-		switch kind {
-		case "commit-slow", "ctx-commit":
-			commitmode = "s"
-		case "interval":
-			commitmode = "a"
-		}
-		if commitmode == "a" {
-			ci = ms(rr(rng, 5, 30))
-		}
+	if commitmode == "a" {
+		ci = ms(rr(rng, 5, 30))
 	}
 	nparts := 1
+	watch := false
+	watchIv := ms(rr(rng, 20, 60))
 	if isG {
 		nparts = rr(rng, 1, 3)
+		watch = rng.Intn(4) == 0
 	}
 	nrec0 := rng.Intn(21)
 	appendDuring := rng.Intn(2) == 0
@@ -131,6 +122,9 @@ func runGF(sc scen) result {
 	e.ft = ft
 	ft.add("kind=" + kind)
 	ft.add("fake=groupfake")
+	if watch {
+		ft.add("watch")
+	}
 
 	st := &gfState{rng: rand.New(rand.NewSource(rng.Int63())), count: map[string]int{}, commitReq: make(chan struct{}), fetchReq: make(chan struct{})}
 	st.fault = func(string, int) groupfake.Fault { return groupfake.Fault{} }
@@ -508,6 +502,10 @@ func runGF(sc scen) result {
 			cfg.RebalanceTimeout = reb
 			cfg.JoinGroupBackoff = jb
 			cfg.CommitInterval = ci
+			if watch {
+				cfg.WatchPartitionChanges = true
+				cfg.PartitionWatchInterval = watchIv
+			}
 		}
 		if verbose {
 			cfg.Logger = klogger{"kafka[" + client + "]: "}
